@@ -7,7 +7,7 @@
    implementation's stall behaviour with the kinematic statement of C13 run by run
    (harness/belt.py, oracle clauses nonacc-... and acc-...).  Known findings: known_findings.jsonl. *)
 From Coq Require Import List ZArith Bool Arith.
-From FV Require TBelt TBeltProofs.
+From FV Require TBelt TBeltProofs SrcFragments TieBelt.
 Import ListNotations.
 Open Scope Z_scope.
 
@@ -60,3 +60,11 @@ Proof.
             TBelt.nres := 0; TBelt.moving := []; TBelt.bready := [0%nat]; TBelt.arrived := []; TBelt.entered := [] |}.
   simpl. split; [reflexivity|]. split; [reflexivity|]. split; [discriminate|reflexivity].
 Qed.
+
+(* tie B: the admission test the two theorems above speak about is the one regenerated from the sources *)
+Theorem C13_admission_test_regenerated :
+  forall b noacc one, TBelt.gate b noacc one =
+    if TBelt.slotted b then SrcFragments.SlotBeltStore_gate (TieBelt.glens_of b noacc one)
+    else SrcFragments.ContBeltStore_gate (TieBelt.glens_of b noacc one).
+Proof. exact TieBelt.gate_regenerated. Qed.
+Print Assumptions C13_admission_test_regenerated.
